@@ -65,13 +65,15 @@ def nonempty_subsets(n):
     return out
 
 
-def build_spec(name, form, modes, rot, n):
+def build_spec(name, form, modes, rot, n, ph=None):
     """The python object passed as keyword `name`.  Unselected modes of a list carry ``None`` (the
     keyword's own 'not requested' value; ``validate_constraints`` tests list entries for truthiness)."""
     if form == "scalar":
         return param_for(name, 0, rot)
     if form == "list":
-        return [param_for(name, m, rot) if m in modes else None for m in range(n)]
+        # unselected entries: None, or - as callers write it - False / 0 (ph="false"); all three are falsy = "not requested"
+        blank = None if ph is None else (False if name in BOOLEAN else 0)
+        return [param_for(name, m, rot) if m in modes else blank for m in range(n)]
     if form == "dict":
         # a dict is an ordered object: odd rotations insert the modes in decreasing order, as a caller may write {2: .., 0: ..}
         order = list(modes) if rot % 2 == 0 else list(reversed(modes))
@@ -192,7 +194,7 @@ def bounds(tier):
             "shapes": [[4, 3, 4], [3, 4, 3, 3]],
             "single_data": ["signed", "nonneg", "negative", "tied"],
             "single_ranks": [1, 2, 3],
-            "single_iters": {3: [[o, i] for o in (1, 2, 5) for i in (1, 5, 10)], 4: [[1, 1], [2, 5], [5, 10]]},
+            "single_iters": {3: [[0, 1]] + [[o, i] for o in (1, 2, 5) for i in (1, 5, 10)], 4: [[0, 1], [1, 1], [2, 5], [5, 10]]},
             "mixed_shapes": [[4, 3, 4], [3, 4, 3, 3]],
             "mixed_data": {3: ["signed", "nonneg"], 4: ["signed"]},
             "mixed_ranks": {3: [2], 4: [2]},
@@ -204,7 +206,7 @@ def bounds(tier):
         "shapes": [[4, 3, 4], [3, 4, 3, 3], [3, 4, 3]],
         "single_data": ["signed", "nonneg", "negative", "lowrank", "tied"],
         "single_ranks": [1, 2, 3],
-        "single_iters": {3: [[o, i] for o in (1, 2, 5) for i in (1, 5, 10)], 4: [[o, i] for o in (1, 2, 5) for i in (1, 5, 10)]},
+        "single_iters": {3: [[0, 1]] + [[o, i] for o in (1, 2, 5) for i in (1, 5, 10)], 4: [[0, 1]] + [[o, i] for o in (1, 2, 5) for i in (1, 5, 10)]},
         "mixed_shapes": [[4, 3, 4], [3, 4, 3, 3]],
         "mixed_data": {3: ["signed", "nonneg", "negative"], 4: ["signed", "nonneg"]},
         "mixed_ranks": {3: [1, 2, 3], 4: [2, 3]},
@@ -283,6 +285,14 @@ class C11(Check):
                             for api in apis:
                                 yield {"kind": "single", "shape": shape, "data": group["data"], "rank": rank, "init": group["init"],
                                        "iters": iters, "api": api, "spec": [[name, form, modes, rot]], "seed": seed}
+                            if iters == [2, 5]:
+                                # a constrained mode that is never updated (fixed_modes): its factor is the projected initialisation
+                                for fx in ([0], [n - 2]):
+                                    yield {"kind": "single", "shape": shape, "data": group["data"], "rank": rank, "init": group["init"], "fixed": fx,
+                                           "iters": iters, "api": "fn", "spec": [[name, form, modes, rot]], "seed": seed}
+                            if form == "list" and len(modes) < n and iters == [2, 5]:
+                                yield {"kind": "single", "shape": shape, "data": group["data"], "rank": rank, "init": group["init"], "ph": "false",
+                                       "iters": iters, "api": "fn", "spec": [[name, form, modes, rot]], "seed": seed}
         elif kind == "mixed":
             a, c = group["names"]
             for iters in b["mixed_iters"][n]:
@@ -294,6 +304,9 @@ class C11(Check):
                                     for fc in ("list", "dict"):
                                         yield {"kind": "mixed", "shape": shape, "data": data, "rank": rank, "init": init, "iters": iters,
                                                "api": "fn", "spec": [[a, fa, sa, 0], [c, fc, sc, 1 if c not in BOOLEAN else 0]], "seed": seed}
+                                        if fa == "list" or fc == "list":
+                                            yield {"kind": "mixed", "shape": shape, "data": data, "rank": rank, "init": init, "iters": iters, "ph": "false",
+                                                   "api": "fn", "spec": [[a, fa, sa, 0], [c, fc, sc, 1 if c not in BOOLEAN else 0]], "seed": seed}
         elif kind == "conflict":
             a = group["first"]
             allk = HARD + PENALTY
@@ -323,7 +336,7 @@ class C11(Check):
         n = len(shape)
         rank = case["rank"]
         spec_items = [(s[0], s[1], [int(m) for m in s[2]], s[3]) for s in case["spec"]]
-        kwargs = {name: build_spec(name, form, modes, rot, n) for name, form, modes, rot in spec_items}
+        kwargs = {name: build_spec(name, form, modes, rot, n, case.get("ph")) for name, form, modes, rot in spec_items}
         req = requested(spec_items, n)
         T = make_tensor(shape, case["data"], case.get("seed", 0))
         T0 = T.copy()
@@ -346,6 +359,8 @@ class C11(Check):
                         res = constrained_parafac(T, rank, n_iter_max=case["iters"][0], n_iter_max_inner=case["iters"][1],
                                                   init=case["init"], random_state=0, **kwargs)
                 else:
+                    if case.get("fixed"):
+                        kwargs = dict(kwargs, fixed_modes=list(case["fixed"]))
                     res = constrained_parafac(T, rank, n_iter_max=case["iters"][0], n_iter_max_inner=case["iters"][1],
                                               init=case["init"], random_state=0, **kwargs)
             except Exception as e:  # classified below
